@@ -389,13 +389,19 @@ def directed_core():
             add("call", fld)
         add("scalar", fieldd((3, 2), 1, dtype=dt))
         add("contour", fieldd((3, 2), 1, dtype=dt))
-    # integer-typed fields (every plot kind but vector-lightness raises on HEAD): armed as soon as the
-    # finding is registered under TAG_INT in known_findings.json
-    if TAG_INT in known_ids():
-        for dt in ("int64", "int32"):
-            add("scalar", fieldd((3, 2), 1, vals=list(range(1, 7)), dtype=dt))
-            add("vector", fieldd((3, 2), 3, vals=list(range(1, 19)), dtype=dt))
-            add("call", fieldd((3, 2), 3, vals=list(range(1, 19)), dtype=dt))
+    # integer- and Boolean-typed fields: every plot kind must be served, the values handed over are the
+    # integers themselves, and the field keeps its dtype and values
+    for dt in ("int64", "int32", "uint8", "bool"):
+        top = 2 if dt == "bool" else 7
+        v1 = [k % top for k in range(1, 7)]
+        v3 = [(5 * k + 1) % top for k in range(18)]
+        for kind in ("scalar", "contour", "lightness", "call"):
+            add(kind, fieldd((3, 2), 1, vals=v1, dtype=dt), expect_ok=True)
+        add("scalar", fieldd((3, 2), 1, vals=v1, dtype=dt, valid=[True] * 6), expect_ok=True,
+            filter=aux((3, 2), [1, 0, 1, 1, 0, 1]))
+        for kind in ("vector", "call", "lightness"):
+            add(kind, fieldd((3, 2), 3, vals=v3, dtype=dt), expect_ok=True, use_color=(kind == "vector"))
+        add("vector", fieldd((2, 2), 2, vals=v3[:8], dtype=dt), expect_ok=True)
     return cases
 
 
@@ -909,7 +915,7 @@ def apply_edit(f, e, parent=None):
     return f
 
 
-ALLOWED = {TAG_FILTER: {"invalid-cell-drawn"}, TAG_INT: {"valid-field-refused"}}
+ALLOWED = {TAG_FILTER: {"invalid-cell-drawn"}}
 
 
 def guard_tags(oracle, tags):
@@ -1113,10 +1119,8 @@ def run_step(c, ctx):
         if all(rev_.get(d) in (f.vdims or []) for d in f.mesh.region.dims):
             rec["oracle"].append("valid-field-refused")
 
-    if (not accepted and wellformed and fd["nvdim"] <= 3 and str(fd.get("dtype") or "").startswith("int")
-            and kind != "contour"):
+    if not accepted and c.get("expect_ok"):
         rec["oracle"].append("valid-field-refused")
-        rec["tags"].append(TAG_INT)
 
     # effective multiplier (for the oracle)
     m_eff = None
